@@ -55,12 +55,14 @@ def pair_programs(rng, tier):
         progs.append(("item", a2, b2, None, ("item", a1 or None, b1, 1, leaf)))
     # sort after sort: term lists up to length 2/3 over two columns and both directions
     atoms = [(("ref", K(1)), True), (("ref", K(1)), False), (("ref", K(2)), True), (("ref", K(2)), False),
-             (("neg", ("ref", K(1))), True)]
+             (("neg", ("ref", K(1))), True),
+             # keys that are NOT injective in the columns they read: rows that tie on them still differ on those columns
+             (("add", ("ref", K(1)), ("ref", K(2))), True), (("mul", ("ref", K(1)), ("ref", K(2))), False)]
     maxlen = 2 if tier == "quick" else 3
     lists = [list(c) for n in range(maxlen + 1) for c in itertools.product(atoms, repeat=n)]
     pairs = list(itertools.product(lists, lists))
     if tier == "quick":
-        pairs = rng.sample(pairs, 400)
+        pairs = rng.sample(pairs, 500)
     rows_s = [{K(1): a, K(2): b} for a, b in [(1, 0), (0, 1), (1, 1), (0, 0), (1, 0), (2, 1)]]
     leaf_s = ("leaf", 1, ("it", 0), cols, rows_s)
     for t1, t2 in pairs:
